@@ -155,6 +155,7 @@ func RunHarnesses(l *Loaded, fns []*ssa.Function, cfg RunConfig) (map[string]*Ha
 			in.AllowInit = allowInit
 			in.KnownIDs = cfg.KnownIDs
 			in.NoModelGuide = os.Getenv("GOSYM_NOMODEL") != ""
+			in.NoDomains = os.Getenv("GOSYM_NODOM") != ""
 			in.NoMerge = os.Getenv("GOSYM_NOMERGE") != ""
 			if cfg.MaxDecisions > 0 {
 				in.MaxDecisions = cfg.MaxDecisions
